@@ -241,7 +241,11 @@ func (c *FCtx) run(alias [2]string) {
 			fail("contract of %s uses unknown lemma %s", fi.Key, ln)
 		}
 		lenv := &CEnv{c: c, names: map[string]Val{}, st: st, old: st, pkg: fi.Pkg}
-		st.assume(lenv.evalBool(lem.E))
+		lt := lenv.evalBool(lem.E)
+		lemmaHypMu.Lock()
+		lemmaHyp[lt] = true
+		lemmaHypMu.Unlock()
+		st.assume(lt)
 		c.note("uses lemma " + ln + " (discharged separately)")
 	}
 	// cells created while evaluating requires (globals) must be in the snapshot too
@@ -317,6 +321,24 @@ func (c *FCtx) recordInputs(name string, v Val, st *State) {
 
 func (c *FCtx) checkReturn(f Flow) {
 	con := c.con
+	for _, ln := range con.UsesLate {
+		var lem *Lemma
+		for _, x := range c.eng.cs.Lemmas {
+			if x.Name == ln {
+				lem = x
+			}
+		}
+		if lem == nil {
+			fail("contract of %s uses unknown lemma %s", c.fi.Key, ln)
+		}
+		lenv := &CEnv{c: c, names: map[string]Val{}, st: f.st, old: f.st, pkg: c.fi.Pkg}
+		lt := lenv.evalBool(lem.E)
+		lemmaHypMu.Lock()
+		lemmaHyp[lt] = true
+		lemmaHypMu.Unlock()
+		f.st.assume(lt)
+		c.note("uses lemma " + ln + " (discharged separately)")
+	}
 	if c.rpBase != nil && c.inlineDepth == 0 {
 		cp := *c.rpBase
 		cp.post, cp.results = f.st, f.results
